@@ -343,6 +343,9 @@ class NPShim:
     def column_stack(self, xs):
         return np.column_stack([to_obj(unwrap(x)) for x in xs])
 
+    def arange(self, *a):
+        return list(range(*[int(x) for x in a]))
+
     def tile(self, x, reps):
         return np.tile(to_obj(unwrap(x)), reps)
 
@@ -655,6 +658,12 @@ class Interp:
         if cond.op == "nonzero":
             self.assume("generic position: a non-constant value is non-zero")
             return True
+        if cond.op in (">", ">=", "<", "<=") and isinstance(cond.rhs, Rat) and cond.rhs.is_zero() and isinstance(cond.lhs, Rat):
+            sg = _norm_like_sign(cond.lhs)
+            if sg:
+                self.assume("generic position: a norm/absolute value of a non-constant quantity is positive")
+                pos = sg > 0
+                return pos if cond.op in (">", ">=") else not pos
         if cond.op == "not":
             return not bool(cond.lhs)
         if cond.op == "and":
@@ -727,6 +736,7 @@ class Interp:
         return None
 
     # -- statements
+    @_entry
     def exec_block(self, stmts, env):
         for st in stmts:
             r = self.exec_stmt(st, env)
@@ -959,6 +969,7 @@ class Interp:
         return None
 
     # -- expressions
+    @_entry
     def eval(self, node, env):
         m = getattr(self, "ex_" + type(node).__name__, None)
         if m is None:
@@ -979,6 +990,9 @@ class Interp:
 
     def module_global(self, module, name):
         key = (module.rel, name)
+        pre = self.config.get("globals") or {}
+        if key in pre:
+            return pre[key]
         if key in self._modglobals:
             return self._modglobals[key]
         r = module.resolve_name(name)
@@ -1271,6 +1285,8 @@ class Interp:
             return getattr(v, name)
         if isinstance(v, Opaque):
             return Opaque(v.what + "." + name)
+        if getattr(v, "_avn_native", False):
+            return getattr(v, name)
         if isinstance(v, Func):
             raise Unsupported("attribute of function")
         if isinstance(v, type):
@@ -1405,6 +1421,9 @@ class Interp:
             raise Unsupported("binary op %s" % type(op).__name__)
         if isinstance(op, ast.Div) and isinstance(a, int) and isinstance(b, int) and not isinstance(a, bool):
             return P.const(Fraction(a, b))
+        if isinstance(op, ast.Mod) and isinstance(a, Rat) and a.const() is None:
+            self.assume("x % (2*pi) treated as x (only used as an argument of periodic functions)")
+            return a
         if isinstance(op, ast.Pow) and is_arr(a) and a.ndim == 2 and a.shape[0] == a.shape[1] and a.shape[0] > 1 \
                 and not is_arr(b):
             self.elementwise_matrix_power = True
@@ -1606,6 +1625,25 @@ class Interp:
         o = Obj(self.program.cls(cls_ref), data)
         o.attrs.update(attrs)
         return o
+
+
+def _norm_like_sign(r):
+    """+1/-1 if r is (rational constant) * product of sqrt/abs atoms divided by such a product, else 0"""
+    def mono_sign(p):
+        if len(p) != 1:
+            return 0
+        (m, c), = p.items()
+        for a, e in m:
+            at = P.atom(a)
+            if not (at.kind == "fn" and at.name in ("sqrt", "abs")):
+                return 0
+        return 1 if c > 0 else -1
+    a, b = mono_sign(r.num), mono_sign(r.den)
+    if P.p_is_const(r.den):
+        b = 1 if r.den[P.ONE_M] > 0 else -1
+    if not a or not b or P.p_is_const(r.num):
+        return 0
+    return a * b
 
 
 class _Gen(list):
